@@ -500,7 +500,7 @@ impl<'a> PublicRangeFinder<'a> {
     let cache_key =
       FastCheckCacheKey::build(fast_check_cache.hash_seed(), nv, entrypoints);
     let cache_item = fast_check_cache.get(cache_key)?;
-    if !self.is_cache_item_valid(&cache_item) {
+    if !self.is_cache_item_valid(nv, &cache_item) {
       return None;
     }
     // fill in the dependencies
@@ -536,7 +536,53 @@ impl<'a> PublicRangeFinder<'a> {
     Some(package)
   }
 
-  fn is_cache_item_valid(&self, cache_item: &FastCheckCacheItem) -> bool {
+  fn is_cache_item_valid(
+    &self,
+    nv: &PackageNv,
+    cache_item: &FastCheckCacheItem,
+  ) -> bool {
+    // The dependencies were recorded as resolved name@version pairs. They
+    // only still say which packages to analyse when this graph resolves the
+    // package's requirements to those versions.
+    let packages = &self.graph.packages;
+    let current_deps = packages
+      .packages_with_deps()
+      .find(|(pkg_nv, _)| *pkg_nv == nv)
+      .map(|(_, deps)| {
+        deps
+          .filter(|dep| {
+            dep.kind == deno_semver::package::PackageKind::Jsr
+          })
+          .filter_map(|dep| {
+            Some((&dep.req.name, packages.mappings().get(&dep.req)?))
+          })
+          .collect::<Vec<_>>()
+      })
+      .unwrap_or_default();
+    for dep in &cache_item.dependencies {
+      let mut named = current_deps
+        .iter()
+        .filter(|(name, _)| **name == dep.name)
+        .peekable();
+      let is_current = if named.peek().is_some() {
+        named.any(|(_, resolved)| *resolved == dep)
+      } else {
+        // not reached through a requirement of this package (a workspace
+        // member, an https import into the registry): it has to be there
+        packages.package_exports(dep).is_some()
+          || self.workspace_members.iter().any(|m| {
+            m.name == dep.name
+              && m
+                .version
+                .as_ref()
+                .map(|v| *v == dep.version)
+                .unwrap_or(true)
+          })
+      };
+      if !is_current {
+        return false;
+      }
+    }
     for (specifier, module_item) in &cache_item.modules {
       let hash = self
         .graph
